@@ -216,7 +216,8 @@ def run_shard(args):
         resolved += res
     rf = '%s/shard%d.resolved' % (work, idx)
     open(rf, 'w').write('\n'.join(resolved) + '\n')
-    rc, out2, err2 = sh([V + '/ocaml/_build/wtmodel', rf], timeout=timeout)
+    # extracted list functions are not tail recursive: large archives need a deep stack
+    rc, out2, err2 = sh(['bash', '-c', 'ulimit -s $(ulimit -Hs) 2>/dev/null; exec "$0" "$1"', V + '/ocaml/_build/wtmodel', rf], timeout=timeout)
     t2 = time.time()
     if rc != 0:
         return {'error': 'model rc=%d: %s' % (rc, err2[-2000:]), 'impl': impl, 'model': []}
@@ -334,8 +335,11 @@ def format_replay(pid, lines, res, note=''):
         out += ['# ' + l for l in note.splitlines()]
     out += ['case replay'] + list(lines)
     if res is not None:
+        def clip(ls):
+            ls = list(ls)
+            return ls if len(ls) <= 400 else ls[:200] + ['... %d observations omitted (re-run the case to see them) ...' % (len(ls) - 400)] + ls[-200:]
         out.append('# --- implementation observations')
-        out += ['#I ' + l for l in res['impl']]
+        out += ['#I ' + l for l in clip(res['impl'])]
         out.append('# --- model observations')
-        out += ['#M ' + l for l in (res['model'] or [])]
+        out += ['#M ' + l for l in clip(res['model'] or [])]
     return '\n'.join(out) + '\n'
